@@ -43,8 +43,18 @@ type Attr struct {
 
 // typed fills the typed view from a ReadValue result.
 func (a *Attr) typed(v interface{}) {
-	addI := func(x int64) { a.IsInt = true; a.Ints = append(a.Ints, x); a.Uints = append(a.Uints, uint64(x)); a.Nums = append(a.Nums, float64(x)) }
-	addU := func(x uint64) { a.IsInt = true; a.Ints = append(a.Ints, int64(x)); a.Uints = append(a.Uints, x); a.Nums = append(a.Nums, float64(x)) }
+	addI := func(x int64) {
+		a.IsInt = true
+		a.Ints = append(a.Ints, x)
+		a.Uints = append(a.Uints, uint64(x))
+		a.Nums = append(a.Nums, float64(x))
+	}
+	addU := func(x uint64) {
+		a.IsInt = true
+		a.Ints = append(a.Ints, int64(x))
+		a.Uints = append(a.Uints, x)
+		a.Nums = append(a.Nums, float64(x))
+	}
 	switch x := v.(type) {
 	case int8:
 		addI(int64(x))
@@ -122,8 +132,8 @@ type Obj struct {
 	Strings    []string `json:"strings,omitempty"`
 	StringsRes Res      `json:"strings_res"`
 
-	Compound    []string `json:"compound,omitempty"` // canonical rendering per element
-	CompoundRes Res      `json:"compound_res"`
+	Compound    []string                 `json:"compound,omitempty"` // canonical rendering per element
+	CompoundRes Res                      `json:"compound_res"`
 	CompoundRaw []map[string]interface{} `json:"-"`
 
 	Attrs    []Attr `json:"attrs,omitempty"`
